@@ -38,6 +38,7 @@ type Obligation struct {
 	Probed     bool
 	ProbeModels []Model
 	Bounds      map[string][2]float64 // constant bounds on harness symbols found in the assumptions
+	Orders [][2]string // pairs (x, y) of symbols with an assumption x <= y
 }
 
 type Interp struct {
@@ -432,10 +433,34 @@ func (in *Interp) symBounds() map[string][2]float64 {
 	return out
 }
 
+// symOrders: assumptions of the form sym <= sym (used to repair pseudo-random probe points)
+func (in *Interp) symOrders() [][2]string {
+	var out [][2]string
+	var visit func(t *Term)
+	visit = func(t *Term) {
+		switch t.op {
+		case "and":
+			for _, a := range t.args {
+				visit(a)
+			}
+		case "fle", "flt":
+			a, b := t.args[0], t.args[1]
+			if a.op == "var" && b.op == "var" && strings.HasPrefix(a.name, "sym:") && strings.HasPrefix(b.name, "sym:") {
+				out = append(out, [2]string{a.name, b.name})
+			}
+		}
+	}
+	for _, a := range in.assumes {
+		visit(a)
+	}
+	return out
+}
+
 func (in *Interp) fillScript(ob *Obligation, q []*Term) {
 	ob.Script = in.ts.Script(q, nil)
 	if ob.Kind == "assert" {
 		ob.Bounds = in.symBounds()
+		ob.Orders = in.symOrders()
 	}
 	ob.Vars = map[string]Sort{}
 	ids := map[int]struct{}{}
